@@ -67,6 +67,7 @@ def setup(P):
         k = param.Parameter(default=('const',), constant=True)
         sub = param.Parameter(default=None)
         other = param.Parameter(default=None)
+        t = param.String(default='t')           # never assigned on an instance: instances follow the class
 
         def __init__(self, **params):
             super().__init__(**params)
@@ -192,7 +193,13 @@ def run_case(idx, rng, P, rep):
     if cls is ObjSlots:
         o.history = [tokv()] if rng.random() < 0.7 else None       # a slot may well hold None (e.g. an invalidated cache)
         o.tag = 'tag%d' % idx if rng.random() < 0.7 else None
-    if rng.random() < 0.5:
+    if rng.random() < 0.15:
+        # two watchers whose precedences say the opposite of their registration order: the later one runs first
+        o.param.watch(o.on_a, 'a', precedence=2)
+        o.param.watch(o.on_as, ['a', 's'], precedence=1)
+        hist += ['watch-own-method', 'watch-own-method-multi', 'precedences-against-registration-order']
+        rep.count('watchers_with_explicit_precedence')
+    elif rng.random() < 0.5:
         o.param.watch(o.on_a, 'a')
         hist.append('watch-own-method')
         if rng.random() < 0.3:
@@ -200,7 +207,7 @@ def run_case(idx, rng, P, rep):
             o.param.watch(o.on_a, 'a')
             hist.append('watch-own-method-twice')
             rep.count('twin_watchers')
-    if rng.random() < 0.5:
+    if 'watch-own-method-multi' not in hist and rng.random() < 0.5:
         o.param.watch(o.on_as, ['a', 's'])          # one watcher for several parameters
         hist.append('watch-own-method-multi')
 
@@ -242,6 +249,10 @@ def run_case(idx, rng, P, rep):
         if c < 0.93 and isinstance(obj.sub, param.Parameterized):
             obj.sub.x = tokv()
             return 'set-sub.x'
+        if c < 0.96:
+            obj.param.t.doc = 'doc%d' % int(tokv())        # (the object now has a Parameter object of its own for t)
+            flags['meta'] = True
+            return 'meta-t-doc'
         obj.extra['list'].append(tokv())
         flags['mut'] = True
         return 'mutate-extra'
@@ -350,7 +361,7 @@ def run_case(idx, rng, P, rep):
         obj.__dict__.setdefault('calls', [])
         n_calls = len(obj.calls)
         kind = rng.choice(['a', 's', 'sub.x', 'sub.y', 'sub.b.y', 'other.x', 'replace-sub', 'mutate', 'meta', 'a', 'sub.x', 'sub.x:bounds', 'update-a-s',
-                           'a-same'])
+                           'a-same', 'class-default-t'])
         expect = []
         replaced = False
         multi = (['on_as'] if 'watch-own-method-multi' in hist else []) + (['on_private'] if 'watch-private-method' in hist else [])
@@ -363,6 +374,20 @@ def run_case(idx, rng, P, rep):
                 obj.a = obj.a
             else:
                 obj.param.update(a=obj.a, s=obj.s)
+            expect = []
+        elif kind == 'class-default-t':
+            # the class is given a new value for a parameter neither object ever assigned: both follow, in every respect
+            Decl = _st['ObjMin']
+            newt = 'T%d' % int(tokv())
+            try:
+                Decl.t = newt
+                for who, x_ in (('orig', o), ('copy', c)):
+                    if x_.t != newt or x_.param.t.default != newt:
+                        viol(f'not-faithful/class-default-not-followed-on-{who}', f'{mech}: after {Decl.__name__}.t = {newt!r} the {who} shows t={x_.t!r}, '
+                             f'param.t.default={x_.param.t.default!r}')
+            finally:
+                Decl.t = 't'
+            rep.count('class_default_changes_after_copy')
             expect = []
         elif kind == 's':
             obj.s = 'd%d' % int(tokv())
@@ -420,6 +445,10 @@ def run_case(idx, rng, P, rep):
         if replaced and (got.count('m_sub') != int(hasattr(cls, 'm_sub')) or got.count('m_deep') > 1 or got.count('m_subslot') > 1 or set(got) - {'m_sub', 'm_deep', 'm_subslot'}):
             viol(f'dependency-not-working-on-{side}/{kind}', f'{mech}: after {kind} on the {side} its dependent methods ran {got}, expected m_sub once '
                  f'and m_deep at most once')
+        if expect is not None and sorted(got) == sorted(expect) and 'precedences-against-registration-order' in hist and \
+                kind in ('a', 'update-a-s') and [g for g in got if g in ('on_a', 'on_as')] != ['on_as', 'on_a']:
+            viol(f'watcher-order-differs-on-{side}/{kind}', f'{mech}: after {kind} on the {side} the watchers ran in the order {got}; '
+                 f'on_as (precedence 1) comes before on_a (precedence 2)')
         if expect is not None and sorted(got) != sorted(expect):
             viol(f'dependency-not-working-on-{side}/{kind}', f'{mech}: after {kind} on the {side} its dependent methods ran {got}, expected {expect}')
     rep.case((mech.rstrip('012345'), tuple(hist), tuple(div)), nontrivial=flags['sub'] or flags['meta'] or flags['mut'])
